@@ -698,3 +698,4 @@ CHECKS["C03"]["required_classes"]["all"] += ["base-directory-switch:relative-lin
 CHECKS["C15"]["jobs"].append(J("refused-web-requests", AGENT, "TestC06WebAPI", {"shards": 2, "checks": 60}, {"shards": 8, "checks": 5000}, toolchain="go126",
                                only=r"refused request \(\d+\) changed the store"))
 CHECKS["C15"]["required_classes"]["all"] += ["management-request-with-method-other-than-POST"]
+CHECKS["C12"]["jobs"].append(J("upgrades-1cpu", AGENT, "TestC12Upgrades", {"shards": 2, "checks": 40, "env": {"GOMAXPROCS": "1"}}, {"shards": 4, "checks": 3000, "env": {"GOMAXPROCS": "1"}}, toolchain="go126"))
